@@ -211,6 +211,7 @@ def catalogue(rng, tier, dims=("homogeneous", "spatial_1D", "spatial_2D"), confs
             sol["k_f"] = rng.choice([1.853, 1.5, 2.05]); sol["M_s"] = rng.choice([0.3423, 0.18, 0.0584]); sol["cp_s"] = rng.choice([1240, 1500])
             over.setdefault("water", {})["cp_i"] = rng.choice([2108, 2050])
             over.setdefault("kinetics", {})["a"] = rng.choice([29.0, 26.0, 31.0])
+            over["kinetics"]["c"] = rng.choice([1.0, 0.5, 0.0])      # weight of the vial-dependent part of the pre-exponential factor
         if wide_depression:
             # concentrated solution (depression > 1 K) in a tall, strongly cooled vial: at nucleation only part of the vial is
             # supercooled and some grid point lies between T_eq_l and T_m
